@@ -97,7 +97,8 @@ pub fn no_std(m: &Model, ctx: &mut Ctx, rule: &str) {
             impl<'a> model::DeepCb for C<'a> {
                 fn expr(&mut self, e: &syn::Expr) {
                     if let syn::Expr::If(i) = e {
-                        if tok(&i.cond) == self.p {
+                        let c = tok(&i.cond);
+                        if c == self.p || c == format!("!{}", self.p) {
                             self.out.push(i.clone());
                         }
                     }
@@ -109,7 +110,8 @@ pub fn no_std(m: &Model, ctx: &mut Ctx, rule: &str) {
                 n += 1;
                 ctx.func(&f.key);
                 ctx.oblige(rule, &format!("no_std:{}", f.name), true);
-                let Some((t, e)) = branch_quotes(i) else {
+                let negated = tok(&i.cond).starts_with('!');
+                let Some((t, e)) = branch_quotes(i).map(|(t, e)| if negated { (e, t) } else { (t, e) }) else {
                     ctx.fail_closed(rule, &format!("{}: the no_std decision is not a pair of quote! templates", f.name));
                     continue;
                 };
